@@ -105,7 +105,7 @@ pub fn c01(ctx: &Ctx, rep: &mut Report) {
             }
         }
     }
-    let n = ctx.share(40_000, 3_000_000);
+    let n = ctx.share(100_000, 5_000_000);
     let cli_every = if ctx.quick() { (n / 20).max(1) } else { (n / 1200).max(1) };
     for i in 0..n {
         if i % 128 == 0 && ctx.out_of_time() && i >= n / 20 {
@@ -556,9 +556,9 @@ pub fn c12(ctx: &Ctx, rep: &mut Report) {
         }
     }
     rep.exhaustive = Some(false);
-    rep.notes.push(format!("all statement sequences of size <= {} enumerated in 4 contexts; sizes up to {} sampled", max_all, max_sample));
+    rep.notes.push(format!("all statement sequences of size <= {} enumerated in 5 contexts; sizes up to {} sampled", max_all, max_sample));
     // random larger programs from the general generator, biased to blocks and functions
-    let n = ctx.share(6_000, 400_000);
+    let n = ctx.share(40_000, 1_000_000);
     for i in 0..n {
         if i % 128 == 0 && ctx.out_of_time() {
             break;
